@@ -119,11 +119,13 @@ PROPS["C18"] = dict(
          "another, empty key, values shorter/longer than 32 bytes and single bytes below/above 0x80), with commit+reload at arbitrary points and Prove/VerifyProof "
          "(incl. one single-bit corruption per proof); or a DeriveSha run over 0-270 items (around the 0x7f/0x80 and 1-byte/2-byte index boundaries). Non-trivial: all",
     level_text="The Lean trie model (insert/delete/get, compact encoding, RLP, node embedding, concrete keccak-256) reproduces every root, lookup and proof of the "
-               "real trie byte for byte on random histories; theorems: see Props/C18.lean (lookup-after-insert refinement to a finite map for all tries and keys; "
-               "history independence of content). History independence of the *root*, reload, proof exactness and stack-trie = full-trie are additionally "
-               "checked on the real code by rebuilding from the final content in other orders.",
-    level_note="Trusted: Lean kernel; harness; keccak-256/RLP are executable Lean code validated against the real roots (not verified). Partial: uniqueness of the "
-               "canonical form (root is a function of content) is not yet a Lean theorem - it is enforced by the T3 rebuild oracle; VerifyRangeProof and the node iterator are not covered.",
+               "real trie byte for byte on random histories; theorems (Props/C18.lean): lookup after insert and after delete (through branch collapse and short-node merge) for all well-formed tries and "
+               "keys; every history of writes and deletes refines a finite map; insert and delete keep the canonical form, two canonical tries with the same "
+               "content are the same tree, hence the root of every reachable trie depends only on its content (C18_root_depends_only_on_content, for the real "
+               "hash function and any other). Reload, proof exactness, stack-trie = full-trie, a StackTrie reference root and copy independence are "
+               "additionally checked on the real code.",
+    level_note="Trusted: Lean kernel; harness; keccak-256/RLP are executable Lean code validated against the real roots (not verified). Partial: soundness of "
+               "Prove / VerifyProof is T2 (model proofs = real proofs) and T3 (corrupted proofs rejected) only, not a Lean theorem; VerifyRangeProof and the node iterator are not covered.",
     assumptions=["keys are used in hex-nibble form with terminator, as keybytesToHex produces"],
 )
 
@@ -345,7 +347,7 @@ PROPS["C11"] = dict(
 
 PROPS["C09"] = dict(
     lean_modules=["QuaiVerif.Props.C09"],
-    areas=[dict(name="c09", spec_ops=("diff", "limit", "order", "total", "delta"), n_quick=4, n_thorough=60, seeds_thorough=3, n_search=12, timeout=3000)],
+    areas=[dict(name="c09", spec_ops=("diff", "limit", "order", "total", "delta", "basefee", "flow"), n_quick=4, n_thorough=60, seeds_thorough=3, n_search=12, timeout=3000)],
     facts=["verify_header_compares"],
     rule="a case is one 30-block history of the real zone node (see C06) with miner-chosen block times of 0-3 s (10%: up to 39 s) and zone / region blocks; for "
          "every block the model's CalcDifficulty, gas / state limit ramp, TotalLogEntropy, DeltaLogEntropy and CalcOrder are evaluated on the real header "
